@@ -30,7 +30,7 @@ def opcount(draw):
     """counted operations reaching 201 in executed / unexecuted branches, with multisig key counts, across script phases"""
     at = draw(at_)
     sv = draw(sv_)
-    way = draw(st.sampled_from(['neutral-units', 'unexecuted-branch', 'multisig-keys', 'phases', 'mixed-units']))
+    way = draw(st.sampled_from(['neutral-units', 'unexecuted-branch', 'multisig-keys', 'multisig-mid', 'multisig-mid', 'phases', 'mixed-units']))
     target = 201 + at
     stack = []
     succ = None
@@ -57,6 +57,24 @@ def opcount(draw):
         pre = target - 1 - nk
         keys = b''.join(G.push(bytes([2]) + bytes([i + 1]) * 32, 1) for i in range(nk))
         script = b'\x61' * pre + b'\x00' + b'\x00' + keys + num(nk) + b'\xae'
+        if sv == R.TAPSCRIPT:
+            sv = R.WITNESS_V0
+    elif way == 'multisig-mid':
+        # a CHECKMULTISIG that really tries keys (m >= 1, failing empty or garbage signature) in the MIDDLE of the script, possibly twice:
+        # all n keys count, whatever the matching loop did, and counting continues afterwards
+        nk = draw(st.integers(1, 20))
+        two = draw(st.booleans()) and nk <= 8
+        keys = b''.join(G.push(bytes([2]) + bytes([i + 1]) * 32, 1) for i in range(nk))
+        ms = b'\x00' + b'\x00' + b'\x51' + keys + num(nk) + b'\xae' + b'\x75'       # dummy, empty sig, 1-of-nk, result dropped
+        used = (1 + nk + 1) * (2 if two else 1)                                             # CHECKMULTISIG + keys + DROP
+        pre = draw(st.integers(0, max(0, target - used)))
+        post = target - used - pre
+        if post < 0:
+            pre, post = 0, 0
+            script = b'\x61' * max(0, target - (1 + nk + 1)) + ms + b'\x51'
+        else:
+            script = b'\x61' * pre + ms + (ms if two else b'') + b'\x61' * post + b'\x51'
+        flags &= ~F['NULLFAIL']
         if sv == R.TAPSCRIPT:
             sv = R.WITNESS_V0
     else:
